@@ -989,6 +989,7 @@ pub fn execute(plan: &Plan, keep_net_bytes: bool) -> RunOutput {
     let tls: SharedTlsLog = Default::default();
     let net: SharedNet = Default::default();
     net.lock().unwrap().keep_bytes = keep_net_bytes;
+    net.lock().unwrap().keep_old_mappings = plan.cfg.nat_keeps_old_mapping;
     let addrs: Arc<Mutex<(Option<SocketAddress>, Vec<SocketAddress>)>> = Default::default();
     let end_ns = Arc::new(Mutex::new(0u64));
 
@@ -1156,11 +1157,14 @@ fn run_inner(
                         s.rebind(new);
                         let cur: SocketAddress = s.local_addr().unwrap().into();
                         let mut n = net3.lock().unwrap();
+                        let mut olds = vec![];
                         for h in n.hosts.iter_mut() {
                             if h.role == Role::Client && h.idx == idx {
+                                olds.push((h.addr, idx));
                                 h.addr = cur;
                             }
                         }
+                        n.aliases.extend(olds);
                         if let Some(d) = new_delay {
                             n.extra_delay_us.insert(idx, d);
                         }
